@@ -11,7 +11,7 @@ SPEC = {
     "gen": ["cores", "sews2"],
     "required_theorems": [
         # Props/C01Gen2.lean: the translated CMap2::one_sew / one_unsew ARE the model's oneSew2 / oneUnsew2
-        "C01_gen_oneSew2", "C01_gen_oneUnsew2",
+        "C01_gen_oneSew2", "C01_gen_oneUnsew2", "C01_gen_twoSew2", "C01_gen_twoUnsew2", "C01_gen_two_sews_preserve_WF", "C01_gen_one_sews_preserve_WF",
         # Props/C01Gen.lean: the translated *_core functions of betas.rs ARE the model's link cores (program equality)
         "C01_gen_oneLinkCore", "C01_gen_twoLinkCore", "C01_gen_threeLinkCore", "C01_gen_oneUnlinkCore", "C01_gen_twoUnlinkCore",
         "C01_gen_threeUnlinkCore", "C01_gen_cores_preserve_WF","C01_history_preserves_WF", "C01_step_preserves_WF", "C01_failed_call_changes_nothing", "C01_unused_is_nobodys_image",
